@@ -252,7 +252,9 @@ class TlcResult:
 
 
 def workdir(tag):
-    d = os.path.join(build_dir(), "tla_" + tag)
+    # scratch runs (another tree, or an explicit VERIF_OUT) keep their TLC work files to themselves, so that they can run
+    # next to a regular run of the same specification
+    d = os.path.join(_SCRATCH, "tla_" + tag) if _SCRATCH else os.path.join(build_dir(), "tla_" + tag)
     os.makedirs(d, exist_ok=True)
     for f in os.listdir(SPEC_DIR):
         if f.endswith(".tla") or f.endswith(".cfg"):
